@@ -493,6 +493,13 @@ def run_model(ctx, defs, hcases, qcases, ecases):
     bad = ctx.coq_cases("query", header, [c for c, _ in qcases], "fun c => chk_query jc_current (fst c) (snd c)", shard=shard, timeout=900)
     for i in bad or []:
         ctx.disagreement("query", qcases[i][1], "model (run_plan) and implementation (Butler.query().data_ids()) return different rows")
+    # the pruned enumeration used above against the model's own brute-force definition, where that is affordable
+    small = [(c, i) for c, i in qcases if len(i["dimensions"]) <= 8]
+    bad = ctx.coq_cases("fast", header, [c for c, _ in small], "fun c => chk_fast jc_current (fst c) (snd c)",
+                        shard=max(50, (len(small) + 3) // 4), timeout=900)
+    for i in bad or []:
+        ctx.disagreement("fast-evaluator", small[i][1], "JoinCheck.fquery differs from Join.query (checker machinery, not the implementation)")
+    ctx.hist("model", "fast evaluator cross-checked against the brute-force definition", len(small))
 
 
 def corpus_payloads():
@@ -547,7 +554,7 @@ def _main(ctx: Ctx, quick: bool, model: bool = True):
     ctx.hist("groups", "with two spatial families", sum(1 for g in groups if len(g["spatial"]) == 2))
     defs, hcases, qcases = [], [], []
     run_corpus(ctx, meta, groups, defs, hcases, qcases)
-    npop = 5 if quick else 12
+    npop = 5 if quick else 8
     payloads, descr = build_payloads(ctx, meta, groups, npop, 16, quick)
     egroups = element_groups(meta, groups)
     for d in descr:
@@ -589,6 +596,6 @@ def run(ctx: Ctx):
     _main(ctx, ctx.quick)
     if ctx.broken and not ctx.oracle_failures and ctx.quick:
         ctx.log("something no longer checks and the oracle held: running the thorough-size search on the implementation")
-        ctx.cov["search"] = ("thorough-size generation (24 populations x 3-4 histories x all 460 closed groups) was run on the "
+        ctx.cov["search"] = ("thorough-size generation (8 populations x 3-4 histories x all 460 closed groups) was run on the "
                              "implementation; the property oracle held on every case")
         _main(ctx, quick=False, model=False)
